@@ -53,7 +53,7 @@ def closure_jobs(ctx):
                 add(k, kinds, buf, 2, 2, 2, 5)
     for kinds in kinds_of(3):
         nu = sum(1 for i in range(3) if (kinds // 3 ** i) % 3 == 0)
-        add(3, kinds, 4, 2, 2, 1, 40.0 * 4 ** nu)
+        add(3, kinds, 4, 1 if (q and nu == 3) else 2, 2, 1, 40.0 * 4 ** nu)
         if not q:
             add(3, kinds, 0, 2, 2, 1, 40.0 * 4 ** nu)
     # four nodes: intersections and complements over two base sets (no Include edges), and cyclic unions with one derived node
